@@ -69,6 +69,30 @@ func refIdentity(c rootCfg, prog []progOp) (prefix string, tags map[string]strin
 	return strings.Join(parts, sep), tags
 }
 
+// refAmbiguous reports whether the program applies an empty subscope name while the prefix accumulated so
+// far is empty. The statement does not say whether such a component contributes a separator ("names joined
+// by the separator" says yes, "an empty root prefix contributes no leading separator" suggests no), so such
+// programs are executed but their names are not judged. Below a non-empty prefix an empty name is an
+// ordinary component: "p" + "" + "m" is "p..m".
+func refAmbiguous(c rootCfg, prog []progOp) bool {
+	name := func(s string) string { return s }
+	if c.san != nil {
+		name = func(s string) string { return refSanitize(c.san.NameCharacters, c.san.ReplacementCharacter, s) }
+	}
+	empty := name(c.prefix) == ""
+	for _, op := range prog {
+		if op.tag {
+			continue
+		}
+		if n := name(op.sub); n == "" && empty {
+			return true
+		} else if n != "" {
+			empty = false
+		}
+	}
+	return false
+}
+
 func refFullName(c rootCfg, prefix, metric string) string {
 	sep := c.sep
 	if sep == "" {
@@ -160,6 +184,9 @@ func runProgram(c rootCfg, prog []progOp, path histPath, metric string) (string,
 		}
 		steps++
 	}
+	if refAmbiguous(c, prog) {
+		return "", "", steps
+	}
 	prefix, wantTags := refIdentity(c, prog)
 	wantName := refFullName(c, prefix, metric)
 	s.Counter(metric).Inc(1)
@@ -245,7 +272,7 @@ func runProgram(c rootCfg, prog []progOp, path histPath, metric string) (string,
 
 func c04Alphabet() []progOp {
 	ops := []progOp{}
-	for _, n := range []string{"a", "b", "a.b", "é", "\xff"} {
+	for _, n := range []string{"a", "b", "a.b", "é", "\xff", ""} {
 		ops = append(ops, progOp{sub: n})
 	}
 	maps := []map[string]string{nil, {}, {"k": "1"}, {"k": "2"}, {"k": ""}, {"j": "1"}, {"k": "1", "j": "1"}, {"k": "2", "j": ""}}
